@@ -115,9 +115,23 @@ def conjuncts_of_contains(f: Func, index: Optional[RepoIndex] = None) -> Tuple[L
     w = walk_function(f.node)
     p = f.node.args.args[1].arg
     rets = [e for e in w.events if e.kind == 'return' and e.value is not None]
-    if len(rets) != 1:
-        raise AnalysisError(f'{f.short}: expected one return')
-    v = w.expand(rets[0].value)
+    early = [e for e in rets[:-1]]
+    if not rets or any(not (isinstance(e.value, ast.Constant) and e.value.value is False)
+                       for e in early):
+        raise AnalysisError(f'{f.short}: expected `return False` guards and one final return')
+    v = w.expand(rets[-1].value)
+    # the path condition of the final return: the negations of the early `return False` tests
+    pc = w.expand_formula(strip_iter(rets[-1].guard))
+    pre: List[ast.AST] = []
+    for part in _conj(pc):
+        neg = part[0] == 'not'
+        a = part[1] if neg else part
+        if a[0] != 'atom':
+            raise AnalysisError(f'{f.short}: early-return test outside the grammar '
+                                f'(`{show(part)[:60]}`)')
+        pre.append(ast.UnaryOp(ast.Not(), a[1]) if neg else a[1])
+    if pre:
+        v = ast.BoolOp(ast.And(), pre + [v])
     if index is not None:
         from ..inline import inline_pure_exprs
         v = inline_pure_exprs(index, f.module, f.cls, v)
